@@ -130,7 +130,7 @@ CLAIMED = {
          BASE + 'Partial: aliasing cannot be exhibited by the immutable model (it is detected as disagreement after mutation); deepcopy '
          'traversal order is mirrored; each textual reference occurrence is a distinct object; acyclic configurations.'),
  'C05': ('Theorems constant_delivers_identity / macro_reads_store_at_use / constant_rules / constant_clash_iff (via the suffix-map '
-         'theorems of C08) / resolve_spec / finalize_rejects_unbound_macro / finalize_rejects_unevaluated_macro hold for every state; the '
+         'theorems of C08) / resolve_spec / finalize_rejects_unbound_macro / finalize_rejects_unevaluated_macro / macro_most_recent (Props/C05b.lean: %name yields the value its own section holds, i.e. the most recent binding, for every store and ambient scope) / macro_section_after_bind hold for every state; the '
          'evaluator and the constant map are tied to gin.config by histories that define, redefine and use macros in every order across '
          'parse calls and programmatic binds (incl. macros bound to evaluated references), define colliding constants in and out of '
          'interactive mode, resolve %abbreviations at parse time, make consuming calls and finalize under random active scopes.',
